@@ -384,7 +384,7 @@ Lemma cs_finish_applied : forall cfg sp tx m nodes trs signed evs status out st'
 Proof.
   intros cfg sp tx m nodes trs signed evs status out st' status' out' evs' H.
   unfold cs_finish in H.
-  destruct (cfg_fee cfg && negb (cs_is_hash (cfg_miner cfg))); [discriminate|].
+  destruct (cfg_fee cfg && negb (cs_is_hash cfg (cfg_miner cfg))); [discriminate|].
   fold (cs_fee_transfers cfg tx) in H.
   destruct (cs_apply_transfers sp (trs ++ cs_fee_transfers cfg tx) m []) as [[m1 ue1]| |] eqn:E1; try discriminate.
   destruct (cs_apply_transfers sp signed m1 ue1) as [[m2 ue2]| |] eqn:E2; try discriminate.
@@ -420,7 +420,7 @@ Proof.
         | TSend => match cs_get (tx_from tx) (st_accts st) with
             | None => Rejected ErrNoSender
             | Some a => if ac_bal a <? cs_wrap_u64 (tx_fee tx + tx_value tx) then Rejected ErrSendFunds
-                else if negb (cs_is_hash (tx_to tx)) then Rejected ErrBadTo
+                else if negb (cs_is_hash cfg (tx_to tx)) then Rejected ErrBadTo
                 else cs_finish cfg (tx_hash tx, round) tx (st_accts st) (st_nodes st)
                        [{| tr_from := tx_from tx; tr_to := tx_to tx; tr_amt := tx_value tx |}] [] [] 1 None
             end
@@ -435,7 +435,7 @@ Proof.
   destruct (tx_type tx).
   - destruct (cs_get (tx_from tx) (st_accts st)); [|discriminate].
     destruct (ac_bal c <? cs_wrap_u64 (tx_fee tx + tx_value tx)); [discriminate|].
-    destruct (negb (cs_is_hash (tx_to tx))); [discriminate|].
+    destruct (negb (cs_is_hash cfg (tx_to tx))); [discriminate|].
     apply cs_finish_applied in H'. destruct H' as (m2 & ue2 & A & B & C & _).
     rewrite app_nil_r in A. exists m2, ue2. cbn [app] in A. repeat split; auto.
   - apply cs_finish_applied in H'. destruct H' as (m2 & ue2 & A & B & C & _).
@@ -453,7 +453,7 @@ Lemma cs_finish_no_panic : forall cfg sp tx m nodes trs signed evs status out,
     cs_finish cfg sp tx m nodes trs signed evs status out <> Panicked.
 Proof.
   intros. unfold cs_finish.
-  destruct (cfg_fee cfg && negb (cs_is_hash (cfg_miner cfg))); [discriminate|].
+  destruct (cfg_fee cfg && negb (cs_is_hash cfg (cfg_miner cfg))); [discriminate|].
   destruct (cs_apply_transfers sp _ m []) as [[m1 ue1]| |] eqn:E1; try discriminate.
   - destruct (cs_apply_transfers sp signed m1 ue1) as [[m2 ue2]| |] eqn:E2; try discriminate.
     exfalso. exact (cs_apply_transfers_no_panic _ _ _ _ E2).
@@ -470,7 +470,7 @@ Proof.
    destruct (tx_type tx);
    [ destruct (cs_get (tx_from tx) _); [|discriminate];
      destruct (ac_bal c <? cs_wrap_u64 (tx_fee tx + tx_value tx)); [discriminate|];
-     destruct (negb (cs_is_hash (tx_to tx))); [discriminate|]; apply cs_finish_no_panic
+     destruct (negb (cs_is_hash cfg (tx_to tx))); [discriminate|]; apply cs_finish_no_panic
    | apply cs_finish_no_panic
    | destruct r; [apply cs_finish_no_panic|apply cs_finish_no_panic|discriminate]
    | discriminate ]).
